@@ -448,6 +448,7 @@ fn decode(t: &mut Tape) -> Case {
     let havoc_seed = t.u64();
     p.index_gaps_permille = 200;
     p.nop_placeholders = true;
+    p.function_index = true;
     let g = gen_fn(t, &p);
     let mut f = g.spec;
     // gen_fn repairs reachability by adding edges and wraps the last block around to block 0, which
